@@ -269,6 +269,7 @@ pub fn plan_sig(plan: &Plan) -> u64 {
             (FaultAt::Op(k), FaultKind::Eof) => 200 + k * 16,
             (FaultAt::Op(k), FaultKind::ZeroWrite) => 300 + k * 16,
             (FaultAt::ClientByte(k), _) => 400 + k * 16,
+            (FaultAt::Read(k), _) => 500 + k * 16,
         } ^ ((f.persistent as u64) << 60));
     }
     parts.push(plan.mutations.len() as u64 ^ ((plan.raw_client.as_ref().map(|b| b.len()).unwrap_or(0) as u64) << 8));
